@@ -550,21 +550,9 @@ class PWLCalibration(keras.layers.Layer):
     Returns:
       List of assertion ops in graph mode or immediately asserts in eager mode.
     """
-    # Assert by computing outputs for keypoints and testing them against
-    # constraints.
-    test_inputs = tf.constant(
-        value=self.input_keypoints,
-        dtype=self.dtype,
-        shape=[len(self.input_keypoints), 1])
-    if self.impute_missing:
-      # Keypoints are regular inputs: mark them explicitly as not missing so
-      # that neither `missing_input_value` nor an `is_missing` input is needed.
-      outputs = self.call([test_inputs, tf.zeros_like(test_inputs)])
-    else:
-      outputs = self.call(test_inputs)
-    if isinstance(outputs, list):
-      # `split_outputs` returns one tensor per unit.
-      outputs = tf.concat(outputs, axis=1)
+    # Assert on the outputs at the (current) keypoints: they determine the
+    # whole piecewise linear function.
+    outputs = self.keypoints_outputs()
 
     asserts = pwl_calibration_lib.assert_constraints(
         outputs=outputs,
